@@ -22,6 +22,7 @@ P.assume("resolver contracts are stated for m1+m2 != 0; the massless pair is exa
          "(*.defined_for_massless_pair)")
 
 XV = ("x", "y", "z", "vx", "vy", "vz")
+POLY = ("polyid", "z3", "cvc5")       # polynomial identities: ideal membership first (z3 afterwards finds counter-models)
 
 
 class Sim:
@@ -174,45 +175,58 @@ def kin(m, vx, vy, vz):
     return m * (vx * vx + vy * vy + vz * vz) / 2
 
 
-for tag, order in ORDERS:
-    for act in ("active", "testpair"):
-        @P.task("merge.energy_offset.%s.%s" % (tag, act), fn="reb_collision_resolve_merge")
-        def _(v, order=order, act=act):
-            """track_energy_offset != 0 (inertial-frame integrators): same conservation clauses, and
-            energy_offset' - energy_offset = E_before - E_after with E the kinetic energy of the pair plus their mutual
-            potential energy (counted iff at least one of the two is an active particle)."""
-            s = mk_sim(v)
-            c, p1, p2 = mk_collision(v, s, order)
-            r = s.r
-            v.assume(r.track_energy_offset != 0)
-            Nact, Nvar = v.int("N_active"), v.int("N_var")
-            r.N_active, r.N_var = Nact, Nvar
-            v.assume(Nvar == 0, Nact >= -1)
-            e0, G = r.energy_offset, r.G
-            merge_pre(v, s, p1, p2)
-            o = s.old
-            lo, hi = (p1, p2) if order == "p1<p2" else (p2, p1)
-            nactive = z3.If(Nact == -1, s.N - Nvar, Nact)
-            interacting = z3.Or(lo < nactive, hi < nactive)
-            v.assume(interacting if act == "active" else z3.Not(interacting))
-            d2 = sum((sel(o, f, lo) - sel(o, f, hi)) ** 2 for f in "xyz")
-            if act == "active":
-                v.assume(d2 != 0)       # distinct positions (the potential energy is otherwise undefined)
-            ret = v.call("reb_collision_resolve_merge", s.rp, c)
-            merge_common(v, s, p1, p2, ret, order)
-            n = cur(s)
-            Ekin_i = kin(*[sel(o, f, lo) for f in ("m", "vx", "vy", "vz")]) + kin(*[sel(o, f, hi) for f in ("m", "vx", "vy", "vz")])
-            Ekin_f = kin(*[sel(n, f, lo) for f in ("m", "vx", "vy", "vz")])
-            dE = r.energy_offset - e0
-            if act == "active":
-                # dE = Ekin_i - G m_i m_j / d - Ekin_f  with d = sqrt(d2) > 0, stated without the root:
-                # (Ekin_i - Ekin_f - dE) is the positive number G m_i m_j / d
-                u = Ekin_i - Ekin_f - dE
-                mm = G * sel(o, "m", lo) * sel(o, "m", hi)
-                v.prove("offset.potential_sq", u * u * d2 == mm * mm)
-                v.prove("offset.potential_sign", z3.Or(u == 0, (u > 0) == (mm > 0)), order=("z3", "cvc5"))
-            else:
-                v.prove("offset.kinetic_only", dE == Ekin_i - Ekin_f)
+ENERGY_CASES = [(tag, order, act, "inertial") for tag, order in ORDERS for act in ("active", "testpair")] + \
+    [("lt", "p1<p2", "active", "mercurius_encounter"), ("gt", "p1>p2", "active", "trace_kepler")]
+for tag, order, act, frame in ENERGY_CASES:
+    @P.task("merge.energy_offset.%s.%s%s" % (tag, act, "" if frame == "inertial" else "." + frame), fn="reb_collision_resolve_merge")
+    def _(v, order=order, act=act, frame=frame):
+        """track_energy_offset != 0: same conservation clauses, and energy_offset' - energy_offset = E_before - E_after
+        with E the kinetic energy of the pair in the inertial frame (velocities + com_vel during a MERCURIUS encounter
+        step / TRACE Kepler step) plus their mutual potential energy (counted iff at least one of the two is active)."""
+        integ = {"inertial": "REB_INTEGRATOR_IAS15", "mercurius_encounter": "REB_INTEGRATOR_MERCURIUS",
+                 "trace_kepler": "REB_INTEGRATOR_TRACE"}[frame]
+        s = mk_sim(v, integ)
+        c, p1, p2 = mk_collision(v, s, order)
+        r = s.r
+        V = [z3.RealVal(0)] * 3
+        if frame == "mercurius_encounter":
+            r.ri_mercurius.mode = z3.IntVal(1)
+            V = [r.ri_mercurius.com_vel[a] for a in "xyz"]
+        elif frame == "trace_kepler":
+            r.ri_trace.mode = v.enumc("REB_TRACE_MODE_KEPLER")
+            V = [r.ri_trace.com_vel[a] for a in "xyz"]
+        v.assume(r.track_energy_offset != 0)
+        Nact, Nvar = v.int("N_active"), v.int("N_var")
+        r.N_active, r.N_var = Nact, Nvar
+        v.assume(Nvar == 0, Nact >= -1)
+        e0, G = r.energy_offset, r.G
+        merge_pre(v, s, p1, p2)
+        o = s.old
+        lo, hi = (p1, p2) if order == "p1<p2" else (p2, p1)
+        nactive = z3.If(Nact == -1, s.N - Nvar, Nact)
+        interacting = z3.Or(lo < nactive, hi < nactive)
+        v.assume(interacting if act == "active" else z3.Not(interacting))
+        d2 = sum((sel(o, f, lo) - sel(o, f, hi)) ** 2 for f in "xyz")
+        if act == "active":
+            v.assume(d2 != 0)       # distinct positions (the potential energy is otherwise undefined)
+        ret = v.call("reb_collision_resolve_merge", s.rp, c)
+        merge_common(v, s, p1, p2, ret, order)
+        n = cur(s)
+
+        def ke(arrs, i):
+            return kin(sel(arrs, "m", i), *[sel(arrs, "v" + f, i) + V[a] for a, f in enumerate("xyz")])
+        Ekin_i = ke(o, lo) + ke(o, hi)
+        Ekin_f = ke(n, lo)
+        dE = r.energy_offset - e0
+        if act == "active":
+            # dE = Ekin_i - G m_i m_j / d - Ekin_f  with d = sqrt(d2) > 0, stated without the root:
+            # (Ekin_i - Ekin_f - dE) is the number G m_i m_j / d
+            u = Ekin_i - Ekin_f - dE
+            mm = G * sel(o, "m", lo) * sel(o, "m", hi)
+            v.prove("offset.potential_sq", u * u * d2 == mm * mm)
+            v.prove("offset.potential_sign", z3.Or(u == 0, (u > 0) == (mm > 0)), order=("z3", "cvc5"))
+        else:
+            v.prove("offset.kinetic_only", dE == Ekin_i - Ekin_f)
 
 
 def prove_unchanged(v, s, tag="unchanged"):
@@ -284,10 +298,10 @@ def implied(v, cond):
     return sol.check() == z3.unsat
 
 
-def hs_setup(v, eps_mode, mcv_zero):
+def hs_setup(v, eps_mode, mcv_zero, fork_ifs=True):
     s = mk_sim(v)
     c, p1, p2 = mk_collision(v, s)
-    v.eng.merge_ifs = False
+    v.eng.merge_ifs = not fork_ifs     # forking decides the `dvx2 < mindv` clamp per path (needed by the exact clauses)
     r = s.r
     o = s.old
     s.c, s.p1, s.p2 = c, p1, p2
@@ -337,14 +351,21 @@ def hs_normal_component_cut(v, s):
             rho = eng.uf("hypot", R, R, R)(simp(eng.local(st, "y21n")), simp(eng.local(st, "x21")))
             s.vn, s.rho = vn, rho
             nm = eng.prefix + v.task.name
-            eng.oblige(st, v.task.name + ".normal_component", rho * vn == s.sdot)
+            eng.oblige(st, v.task.name + ".normal_component", rho * vn == s.sdot).meta["order"] = POLY
             # generic lemma (a, b, S, D arbitrary reals), used at a=rho, b=vx21nn, S=v21.x21, D=|x21|^2
             a, b, S, D = z3.Reals("lem_a lem_b lem_S lem_D")
             small = [a * b == S, a >= 0, a * a == D, D != 0, S <= 0]
             ob = Obligation(nm + ".normal_component_nonpositive", small, b <= 0, "lemma")
             eng.obligations.append(ob)
-            eng.oblige(st, v.task.name + ".rho_is_distance", rho * rho == s.d2)
+            eng.oblige(st, v.task.name + ".rho_is_distance", rho * rho == s.d2).meta["order"] = POLY
             st.assume(z3.Implies(s.d2 != 0, vn <= 0))
+            if not z3.is_rational_value(s.eps):
+                # with a symbolic restitution coefficient the clamp test -(1+eps)*vx21nn < 0 is a product: generic lemma
+                # (b <= 0, E >= 0 => -(1+E) b >= 0) instantiated at b = vx21nn, E = eps, so that the clamp is decided linearly
+                E = z3.Real("lem_E")
+                ob = Obligation(nm + ".unclamped_impulse_nonnegative", [b <= 0, E >= 0], -(1 + E) * b >= 0, "lemma")
+                eng.obligations.append(ob)
+                st.assume(z3.Implies(z3.And(s.d2 != 0, s.eps >= 0), -(1 + s.eps) * vn >= 0))
         return eng.math1(st, "sqrt", args[0], n)
     v.contract("sqrt", hook)
 
@@ -360,7 +381,7 @@ def hs_post(v, s, ret, energy, restitution):
         else:
             v.prove("frame." + lname(f), n[f] == o[f])
     v.prove("frame.N", r.N == s.N)
-    if not implied(v, z3.And(s.overlap, s.approaching)):
+    if n[("last_collision",)].eq(o[("last_collision",)]):       # nothing was written on this path
         # early return: not overlapping, or not approaching
         v.prove("early_return.reason", z3.Not(z3.And(s.overlap, s.approaching)))
         for f in ("vx", "vy", "vz", "last_collision"):
@@ -370,18 +391,18 @@ def hs_post(v, s, ret, energy, restitution):
     dv1 = [sel(n, "v" + f, p1) - sel(o, "v" + f, p1) for f in "xyz"]
     dv2 = [sel(n, "v" + f, p2) - sel(o, "v" + f, p2) for f in "xyz"]
     for i, f in enumerate("xyz"):
-        v.prove("momentum." + f, s.m1 * dv1[i] + s.m2 * dv2[i] == 0)
+        v.prove("momentum." + f, s.m1 * dv1[i] + s.m2 * dv2[i] == 0, order=POLY)
     # the impulse acts along the line of centres: dv1 x x21 = 0
     X = s.x21
-    v.prove("central.x", dv1[1] * X[2] - dv1[2] * X[1] == 0)
-    v.prove("central.y", dv1[2] * X[0] - dv1[0] * X[2] == 0)
-    v.prove("central.z", dv1[0] * X[1] - dv1[1] * X[0] == 0)
+    v.prove("central.x", dv1[1] * X[2] - dv1[2] * X[1] == 0, order=POLY)
+    v.prove("central.y", dv1[2] * X[0] - dv1[0] * X[2] == 0, order=POLY)
+    v.prove("central.z", dv1[0] * X[1] - dv1[1] * X[0] == 0, order=POLY)
     v.prove("stamped", z3.And(sel(n, "last_collision", p1) == r.t, sel(n, "last_collision", p2) == r.t))
     v.prove("counted", r.collisions_log_n == s.logn0 + 1)
     post_rel = [s.v21[i] + dv1[i] - dv2[i] for i in range(3)]
     post_dot = sum(a * b for a, b in zip(post_rel, X))
     if restitution == "exact":
-        v.prove("restitution", post_dot == -s.eps * s.sdot)
+        v.prove("restitution", post_dot == -s.eps * s.sdot, order=POLY)
         # separating: generic lemma (A, E, S arbitrary reals) used at A = post_dot, E = eps, S = v21.x21 (<= 0: approaching)
         from engine.csym import Obligation
         A, E, S = z3.Reals("lem_A lem_E lem_S")
@@ -395,7 +416,7 @@ def hs_post(v, s, ret, energy, restitution):
         e1 = kin(s.m1, *[sel(n, "v" + f, p1) for f in "xyz"]) + kin(s.m2, *[sel(n, "v" + f, p2) for f in "xyz"])
         gbv = [s.c.gb["v" + f] for f in "xyz"]
         # with a moving ghost box (shear) the bounce is elastic in the frame of the image; here: gb.v = 0
-        v.prove("kinetic_energy", e1 == e0)
+        v.prove("kinetic_energy", e1 == e0, order=POLY)
 
 
 @P.task("hardsphere.elastic", fn="reb_collision_resolve_hardsphere")
@@ -414,7 +435,7 @@ def _(v):
 def _(v):
     """user restitution callback (eps arbitrary), minimum_collision_velocity arbitrary, moving image (shear):
     momentum, central impulse, frame, early returns; the callback is handed the normal relative velocity."""
-    s = hs_setup(v, "callback", False)
+    s = hs_setup(v, "callback", False, fork_ifs=False)
     hs_normal_component_cut(v, s)
     v.assume(s.m1 + s.m2 != 0)
     ret = v.call("reb_collision_resolve_hardsphere", s.rp, s.c)
@@ -514,7 +535,7 @@ class Nest:
                 eng.oblige(st, tag + ".counter_untouched." + var2, eng.local(st, var2) == self.K[var2])
             # vacuity guard (the path ends here, so the driver's own guard does not see it)
             sol = z3.Solver()
-            sol.set("timeout", 3000)
+            sol.set("timeout", 1000)
             for h in st.pc:
                 sol.add(h)
             if sol.check() == z3.unsat:
@@ -576,6 +597,18 @@ def search_enter(v, s):
     return enter
 
 
+def oblige_lin(eng, st, name, goal):
+    """obligation that uses only the linear hypotheses of the path (a subset of the hypotheses: still sound);
+    keeps the structural clauses away from the nonlinear pair test"""
+    from engine.csym import Obligation
+    from engine.backends import _nonlinear
+    ob = Obligation(eng.prefix + name, [h for h in st.hyps() if not _nonlinear(h)], goal, "post")
+    if z3.is_true(z3.simplify(goal)):
+        ob.verdict, ob.backend = "proved", "simplify"
+    eng.obligations.append(ob)
+    return ob
+
+
 def search_after(v, s, hit_of):
     """body contract of the innermost loop: appended <=> hit, monotone frame, cut invariant re-established"""
     def after(eng, st, nest):
@@ -591,31 +624,31 @@ def search_after(v, s, hit_of):
         appended = cN1 == s.cN + 1
         eng.oblige(st, t + ".body.hit_is_appended", z3.Implies(hit, appended))
         eng.oblige(st, t + ".body.only_hits_are_appended", z3.Implies(z3.Not(hit), cN1 == s.cN))
-        eng.oblige(st, t + ".body.at_most_one", z3.Or(cN1 == s.cN, appended))
+        oblige_lin(eng, st, t + ".body.at_most_one", z3.Or(cN1 == s.cN, appended))
         if arr1 is not None:
             rec = {f: z3.Select(C1[f], s.cN) for f in CFIELDS}
-            eng.oblige(st, t + ".body.record.p1", z3.Implies(appended, rec[("p1",)] == I))
-            eng.oblige(st, t + ".body.record.p2", z3.Implies(appended, rec[("p2",)] == J))
-            eng.oblige(st, t + ".body.record.distinct", z3.Implies(appended, rec[("p1",)] != rec[("p2",)]))
+            oblige_lin(eng, st, t + ".body.record.p1", z3.Implies(appended, rec[("p1",)] == I))
+            oblige_lin(eng, st, t + ".body.record.p2", z3.Implies(appended, rec[("p2",)] == J))
+            oblige_lin(eng, st, t + ".body.record.distinct", z3.Implies(appended, rec[("p1",)] != rec[("p2",)]))
             for a, f in enumerate("xyz"):
-                eng.oblige(st, t + ".body.record.gb." + f, z3.Implies(appended, rec[("gb", f)] == shift[a]))
-                eng.oblige(st, t + ".body.record.gb.v" + f, z3.Implies(appended, rec[("gb", "v" + f)] == 0))
+                oblige_lin(eng, st, t + ".body.record.gb." + f, z3.Implies(appended, rec[("gb", f)] == shift[a]))
+                oblige_lin(eng, st, t + ".body.record.gb.v" + f, z3.Implies(appended, rec[("gb", "v" + f)] == 0))
             if s.C0 is not None:
                 k = z3.Int("k_entry")
                 for f in CFIELDS:
                     if f == ("ri",):
                         continue
-                    eng.oblige(st, t + ".body.earlier_entries_kept." + lname(f),
+                    oblige_lin(eng, st, t + ".body.earlier_entries_kept." + lname(f),
                                z3.Implies(z3.And(0 <= k, k < s.cN), z3.Select(C1[f], k) == z3.Select(s.C0[f], k)))
             ln = arr1.length
-            eng.oblige(st, t + ".cut.preserved", z3.And(0 <= cN1, cN1 <= NC1, NC1 == ln))
+            oblige_lin(eng, st, t + ".cut.preserved", z3.And(0 <= cN1, cN1 <= NC1, NC1 == ln))
         else:
-            eng.oblige(st, t + ".cut.preserved", z3.And(cN1 == 0, NC1 == 0))
+            oblige_lin(eng, st, t + ".cut.preserved", z3.And(cN1 == 0, NC1 == 0))
         # frame: the nest writes nothing but the list
         n = cur(s)
         for f in s.leaves:
-            eng.oblige(st, t + ".frame.particles." + lname(f), n[f] == s.old[f])
-        eng.oblige(st, t + ".frame.N", z3.And(s.r.N == s.N, s.r.N_var == 0))
+            oblige_lin(eng, st, t + ".frame.particles." + lname(f), n[f] == s.old[f])
+        oblige_lin(eng, st, t + ".frame.N", z3.And(s.r.N == s.N, s.r.N_var == 0))
     return after
 
 
@@ -672,15 +705,15 @@ def line_min_lemma(v, eng, st, t, rm, d1, dv, dt, q, lam):
         r3 = eng.local(st, "r3")
     except KeyError:
         r3 = None
-    eng.oblige(st, t + ".body.min.link.r1", r1 == A)
-    eng.oblige(st, t + ".body.min.link.r2", r2 == A - 2 * dt * B + dt * dt * C)
-    eng.oblige(st, t + ".body.min.link.t_closest", tc * C == B)
+    eng.oblige(st, t + ".body.min.link.r1", r1 == A).meta["order"] = POLY
+    eng.oblige(st, t + ".body.min.link.r2", r2 == A - 2 * dt * B + dt * dt * C).meta["order"] = POLY
+    eng.oblige(st, t + ".body.min.link.t_closest", tc * C == B).meta["order"] = POLY
     eng.oblige(st, t + ".body.min.link.C_positive", C > 0)
-    eng.oblige(st, t + ".body.min.link.q", q(lam) == A - 2 * lam * dt * B + lam * lam * dt * dt * C)
+    eng.oblige(st, t + ".body.min.link.q", q(lam) == A - 2 * lam * dt * B + lam * lam * dt * dt * C).meta["order"] = POLY
     inrange = z3.And(tc / dt >= 0, tc / dt <= 1)
     taken = r3 is not None
     if taken:
-        eng.oblige(st, t + ".body.min.link.r3", r3 == A - 2 * tc * B + tc * tc * C)
+        eng.oblige(st, t + ".body.min.link.r3", r3 == A - 2 * tc * B + tc * tc * C).meta["order"] = POLY
         eng.oblige(st, t + ".body.min.link.vertex_in_range", inrange)
     else:
         eng.oblige(st, t + ".body.min.link.vertex_out_of_range", z3.Not(inrange))
@@ -766,6 +799,7 @@ for gtag, ghosts in (("box", 0), ("ghosts", 1)):
             <= (r_i+r_j)^2."""
             s = search_setup(v, "REB_COLLISION_LINE", ghosts, False)
             v.eng.merge_ifs = False
+            v.eng.prune_timeout = 200      # nonlinear path conditions: an undecided feasibility check only costs a path
             v.assume(s.r.dt_last_done != 0)
             loops = ring_loops(s, 5) + [
                 (8, "i", z3.IntVal(0), lambda nest, K: K < s.N),
@@ -825,7 +859,7 @@ def fixup_task(v, keep_sorted, outcome, tree, mode):
     parts_obj = s.parts.obj
     a_, b_ = z3.Ints("a_id b_id")
     ID0 = s.old[ID]
-    v.assume(z3.ForAll([a_, b_], z3.Implies(z3.And(0 <= a_, a_ < b_, b_ < s.N), z3.Select(ID0, a_) != z3.Select(ID0, b_))))
+    unique0 = z3.ForAll([a_, b_], z3.Implies(z3.And(0 <= a_, a_ < b_, b_ < s.N), z3.Select(ID0, a_) != z3.Select(ID0, b_)))
     I, J = z3.Int("i_it"), z3.Int("j_entry")
     C0 = {f: s.coll.array(*f) for f in CFIELDS}
     cp1, cp2 = z3.Select(C0[("p1",)], I), z3.Select(C0[("p2",)], I)
@@ -898,9 +932,9 @@ def fixup_task(v, keep_sorted, outcome, tree, mode):
                 eng.oblige(st, tag + ".iteration.counter_untouched", z3.And(eng.local(st, "j") == K, eng.local(st, "i") == I))
                 arr = st.mem.get(s.coll.obj.id)
                 kk = z3.Int("k_other")
-                for f in CFIELDS:
-                    eng.oblige(st, tag + ".iteration.touches_only_entry_j." + lname(f),
-                               z3.Implies(kk != K, z3.Select(eng._leaf_array(arr, f), kk) == z3.Select(before[f], kk)))
+                eng.oblige(st, tag + ".iteration.touches_only_entry_j",
+                           z3.Implies(kk != K, z3.And(*[z3.Select(eng._leaf_array(arr, f), kk) == z3.Select(before[f], kk)
+                                                        for f in CFIELDS])))
                 eng.oblige(st, tag + ".iteration.particles_untouched",
                            z3.And(ids_now(st) == idb, eng._lazy_field(st.mem.get(s.rp.obj), "N", st) == Nb))
             # the other entries: arbitrary afterwards
@@ -928,6 +962,9 @@ def fixup_task(v, keep_sorted, outcome, tree, mode):
 
     def after(eng, st, nest):
         t = v.task.name
+        # precondition on the ghost labels (pre-state): pairwise different.  Added here, at the end of the path, because
+        # it is only needed by the clauses below (it slows the path-feasibility checks down when present from the start)
+        st.assume(unique0)
         rs = st.mem.get(s.rp.obj)
         N1 = eng._lazy_field(rs, "N", st)
         id1 = ids_now(st)
@@ -1091,3 +1128,25 @@ def _(v):
     v.prove("cut.preserved", z3.And(0 <= cN1, cN1 <= s.r.N_allocated_collisions, s.r.N_allocated_collisions == arr1.length))
     n = cur(s)
     v.prove("particles_untouched", z3.And(*[n[f] == s.old[f] for f in s.leaves]))
+
+
+# ============================================================================ not decided
+P.not_decided.append("tree search, internal nodes: the pruning lemma |x1-c| < p1_r + max_radius1 + (sqrt3/2) w for every overlapping "
+                     "leaf particle below c was not discharged (3-D triangle inequality with square roots: z3 nlsat not attempted "
+                     "within budget); in exact reals it is moreover false on a sliver, the code's constant 0.86602540378443 being "
+                     "4.4e-15 below sqrt(3)/2 and the comparison strict (rounding-level, not claimed as a defect).  Only the leaf "
+                     "case (search.tree.leaf) and the radius bound the pruning relies on (merge.tree_radius_bounds: violated) are stated")
+P.not_decided.append("recursive descent reb_tree_get_nearest_neighbour_in_cell / reb_tree_check_for_overlapping_trajectories_in_cell "
+                     "over the oct-tree (tree well-formedness belongs to C15); LINETREE leaf test (same three-candidate minimum "
+                     "as the LINE body, not re-proved on the tree variant); reb_simulation_update_tree")
+P.not_decided.append("search in MERCURIUS / TRACE modes (encounter_map subsets, Ninner = 1) and with shear ghost boxes "
+                     "(time-dependent shift, gb.v != 0): configurations fixed to IAS15-like integrators and periodic images")
+P.not_decided.append("whole-nest induction for the searches: proved = iteration-space headers + body contract of an arbitrary "
+                     "iteration + monotone frame; the step from there to 'every hit pair is in the list' is the trusted "
+                     "iteration-space rule, not a solver-checked induction")
+P.not_decided.append("multiset of surviving particles over a whole resolve loop (no particle lost or duplicated) is reduced to the "
+                     "removal contract of reb_simulation_remove_particle (C14) plus the proved per-entry fix-up clause; the "
+                     "induction over the pending list is the cut invariant, initial establishment by the search is the record.* "
+                     "clauses (p1 != p2, indices of live particles)")
+P.not_decided.append("user-supplied resolve callbacks and restitution functions beyond their stated frame assumptions; "
+                     "collisions_plog bookkeeping of the hard-sphere resolver (ring diagnostics)")
